@@ -39,12 +39,23 @@ def main():
     ap.add_argument("--tier", default="quick")
     ap.add_argument("--skip-tests", action="store_true")
     ap.add_argument("--tests", default="tests", help="test files of the repo to run with the patch applied")
+    ap.add_argument("--reuse-tests", action="store_true",
+                    help="if seeded/<prop>-<slug>/meta.json already records a passing test run for this very patch, keep it")
     a = ap.parse_args()
     src = os.path.abspath(a.src)
     slug = a.name or os.path.basename(src.rstrip("/"))
     patch = os.path.join(src, "patch.diff")
     demo = next((os.path.join(src, f) for f in ("demo.py", "test_demo.py") if os.path.exists(os.path.join(src, f))), None)
     meta = {"property": a.prop, "source": src, "checked_at": time.strftime("%Y-%m-%d %H:%M:%S")}
+    prior = None
+    dst0 = os.path.join(VERIF, "seeded", f"{a.prop}-{slug}")
+    if a.reuse_tests and os.path.exists(os.path.join(dst0, "meta.json")) and os.path.exists(os.path.join(dst0, "patch.diff")):
+        with open(os.path.join(dst0, "meta.json")) as f:
+            pm = json.load(f)
+        with open(os.path.join(dst0, "patch.diff")) as f1, open(patch) as f2:
+            same = f1.read() == f2.read()
+        if same and pm.get("repo_tests_pass"):
+            prior = {k: pm[k] for k in ("repo_tests_run", "repo_tests_tail", "repo_tests_pass", "note") if k in pm}
 
     sh(f"git -C /repo worktree remove --force {WT}")
     rc, out = sh(f"git -C /repo worktree add -q --detach {WT} HEAD")
@@ -65,7 +76,9 @@ def main():
                 rc1, out1 = sh(f"/venv/bin/python {demo}", cwd=WT, env=env, timeout=900)
                 meta["demo_patched_rc"] = rc1
                 meta["demo_patched_tail"] = out1[-600:]
-            if not a.skip_tests:
+            if prior is not None:
+                meta.update(prior)
+            elif not a.skip_tests:
                 rct, outt = sh(f"/venv/bin/python -m pytest -q -p no:cacheprovider -n 4 {a.tests} 2>&1 | tail -3", cwd=WT, env=env,
                                timeout=1800)
                 meta["repo_tests_run"] = a.tests
@@ -93,8 +106,22 @@ def main():
         sh("/venv/bin/python -m harness.gen", cwd=VERIF)
     dst = os.path.join(VERIF, "seeded", f"{a.prop}-{slug}")
     os.makedirs(dst, exist_ok=True)
+    if not meta.get("patch_applies") and os.path.exists(os.path.join(dst, "meta.json")):
+        # the repository moved on (a later fix: commit touches the same lines): keep the recorded run
+        with open(os.path.join(dst, "meta.json")) as f:
+            old = json.load(f)
+        if old.get("patch_applies"):
+            old["stale_since"] = meta["checked_at"] + ": the patch no longer applies to /repo's HEAD; results are those of the recorded run"
+            with open(os.path.join(dst, "meta.json"), "w") as f:
+                json.dump(old, f, indent=1)
+            print(json.dumps({"property": a.prop, "patch_applies": False, "kept_recorded_run": True, "caught": old.get("caught"),
+                              "concrete_failing_input": old.get("concrete_failing_input"), "repo_tests_pass": old.get("repo_tests_pass"),
+                              "demo_clean_rc": old.get("demo_clean_rc"), "demo_patched_rc": old.get("demo_patched_rc"),
+                              "check_violation_line": old.get("check_violation_line"), "replay_what": old.get("replay_what")}, indent=1))
+            return 0
     for f in os.listdir(src):
-        if os.path.isfile(os.path.join(src, f)) and os.path.getsize(os.path.join(src, f)) < 200000:
+        if (os.path.isfile(os.path.join(src, f)) and os.path.getsize(os.path.join(src, f)) < 200000
+                and os.path.abspath(src) != os.path.abspath(dst)):
             shutil.copy(os.path.join(src, f), os.path.join(dst, f))
     with open(os.path.join(dst, "meta.json"), "w") as f:
         json.dump(meta, f, indent=1)
